@@ -4,6 +4,7 @@ package replication
 // Entry point of the shared replication world (../C01/world_test.go) with the C02 oracle.
 
 import (
+	"os"
 	"testing"
 
 	"github.com/WuKongIM/WuKongIM/pkg/zzverif/ev"
@@ -22,6 +23,24 @@ func TestVerifC02(t *testing.T) {
 	res := vwRun(r, "replication-world/C02/deep", o, st, ev.Pick(r, 4, 5), ev.Pick(r, 1, 1), note)
 	res2 := vwRun(r, "replication-world/C02/faulty", o, st, ev.Pick(r, 3, 4), ev.Pick(r, 2, 2), note)
 	res.States += res2.States
+	if r.Thorough() || os.Getenv("VERIF_DEBUG_MDB") == "1" {
+		pool, err := newVWMDBPool()
+		if err == nil {
+			err = pool.selfTest()
+		}
+		if err != nil {
+			r.HarnessError("MessageDB-backed world unavailable: %v", err)
+		} else {
+			om := o
+			om.backend = pool.lease
+			om.evOrder = false
+			mdb := vwRunWorkers(r, "replication-world/C02/messagedb", om, st, 3, 1, 8, note+"; every node's durable log is a real MessageDB (pkg/db/message on Pebble, tmpfs) channel store")
+			r.Guard("messagedb-world-states", mdb.States >= 100, "%d states explored over MessageDB-backed stores", mdb.States)
+		}
+		if pool != nil {
+			pool.close()
+		}
+	}
 	vwAssumptions(r)
 	vwCounters(r, st)
 	if r.Replay() != nil {
